@@ -13,6 +13,7 @@ CONSTANTS
   GraffitiOuts = {"static"}
   PrepOuts = {"ok", "err", "empty"}
   CfgFilter = "nonodeclient"
+  Drops = TRUE
   Dslots <- AllDslots
   MaxCalls = 3
   NDuties = 1
